@@ -6,6 +6,7 @@ import (
 	"google.golang.org/protobuf/proto"
 	"google.golang.org/protobuf/runtime/protoiface"
 	"io"
+	"math"
 	"math/bits"
 )
 
@@ -32,6 +33,7 @@ func Skip(dAtA []byte) (n int, err error) {
 	l := len(dAtA)
 	iNdEx := 0
 	depth := 0
+	var groups []uint64 // field numbers of the groups that are open
 	for iNdEx < l {
 		var wire uint64
 		for shift := uint(0); ; shift += 7 {
@@ -45,8 +47,17 @@ func Skip(dAtA []byte) (n int, err error) {
 			iNdEx++
 			wire |= (uint64(b) & 0x7F) << shift
 			if b < 0x80 {
+				if shift == 63 && b > 1 {
+					return 0, ErrIntOverflow
+				}
 				break
 			}
+		}
+		// What is skipped is kept as unknown fields, which protobuf-go parses again (Equal, text output): a record it
+		// would reject must not be accepted here.
+		fieldNum := wire >> 3
+		if fieldNum == 0 || fieldNum > math.MaxInt32 {
+			return 0, fmt.Errorf("proto: illegal tag %d (wire type %d)", fieldNum, wire&0x7)
 		}
 		wireType := int(wire & 0x7)
 		switch wireType {
@@ -60,6 +71,9 @@ func Skip(dAtA []byte) (n int, err error) {
 				}
 				iNdEx++
 				if dAtA[iNdEx-1] < 0x80 {
+					if shift == 63 && dAtA[iNdEx-1] > 1 {
+						return 0, ErrIntOverflow
+					}
 					break
 				}
 			}
@@ -78,6 +92,9 @@ func Skip(dAtA []byte) (n int, err error) {
 				iNdEx++
 				length |= (int(b) & 0x7F) << shift
 				if b < 0x80 {
+					if shift == 63 && b > 1 {
+						return 0, ErrIntOverflow
+					}
 					break
 				}
 			}
@@ -87,11 +104,16 @@ func Skip(dAtA []byte) (n int, err error) {
 			iNdEx += length
 		case 3:
 			depth++
+			if depth > protowire.DefaultRecursionLimit+1 {
+				return 0, ErrRecursionDepth
+			}
+			groups = append(groups, fieldNum)
 		case 4:
-			if depth == 0 {
+			if depth == 0 || groups[depth-1] != fieldNum {
 				return 0, ErrUnexpectedEndOfGroup
 			}
 			depth--
+			groups = groups[:depth]
 		case 5:
 			iNdEx += 4
 		default:
